@@ -3237,10 +3237,26 @@ class _CanonNot(ast.NodeTransformer):
                 pos = t.operand
             elif isinstance(t, ast.Compare) and len(t.ops) == 1 and isinstance(t.ops[0], (ast.NotEq, ast.IsNot, ast.NotIn)):
                 pos = ast.copy_location(ast.Compare(left=t.left, ops=[self.NEG[type(t.ops[0])]()], comparators=t.comparators), t)
+            elif isinstance(t, ast.BoolOp) and isinstance(t.op, ast.Or) and any(self._negative(v) for v in t.values):
+                # De Morgan: `if not a or b: Y else: X` is `if a and not b: X else: Y` (the pinned tree has no or-test with a negated operand and an else)
+                pos = ast.copy_location(ast.BoolOp(op=ast.And(), values=[self._positive(v) if self._negative(v) else ast.copy_location(ast.UnaryOp(op=ast.Not(), operand=v), v)
+                                                                         for v in t.values]), t)
+            elif isinstance(t, ast.BoolOp) and isinstance(t.op, ast.And) and all(self._negative(v) for v in t.values):
+                # `if not a and not b: Y else: X` is `if a or b: X else: Y`
+                pos = ast.copy_location(ast.BoolOp(op=ast.Or(), values=[self._positive(v) for v in t.values]), t)
             if pos is not None:
                 self.changed = True
                 return ast.copy_location(ast.If(test=pos, body=n.orelse, orelse=n.body), n)
         return n
+
+    def _negative(self, e) -> bool:
+        return (isinstance(e, ast.UnaryOp) and isinstance(e.op, ast.Not)) or (
+            isinstance(e, ast.Compare) and len(e.ops) == 1 and isinstance(e.ops[0], (ast.NotEq, ast.IsNot, ast.NotIn)))
+
+    def _positive(self, e):
+        if isinstance(e, ast.UnaryOp):
+            return e.operand
+        return ast.copy_location(ast.Compare(left=e.left, ops=[self.NEG[type(e.ops[0])]()], comparators=e.comparators), e)
 
 
 def canonical_spellings(model) -> bool:
@@ -3321,6 +3337,11 @@ def collapse_test_temps(model, changed: set) -> bool:
         for x in ast.walk(f.node):
             if isinstance(x, ast.Name):
                 (loads if isinstance(x.ctx, ast.Load) else stores).setdefault(x.id, []).append(x)
+        try:
+            from .inventory import GUARD_PAIRS
+        except ImportError:
+            GUARD_PAIRS = {}
+        pinned_pairs = {tuple(p_) for p_ in GUARD_PAIRS.get(q, ())}
 
         def head_slot(test):
             """(holder, field/index) of the expression evaluated first by the test"""
@@ -3367,6 +3388,23 @@ def collapse_test_temps(model, changed: set) -> bool:
                         ch |= rec(sub)
                 for hd in getattr(st, "handlers", []) or []:
                     ch |= rec(hd.body)
+            # consecutive guard clauses with the same leaving body: one disjunction (`if a: return X` + `if b: return X` -> `if a or b: return X`),
+            # except the pairs the pinned function itself writes that way
+            i = 0
+            while i + 1 < len(stmts):
+                a, b = stmts[i], stmts[i + 1]
+                if isinstance(a, ast.If) and isinstance(b, ast.If) and not a.orelse and not b.orelse and a.body \
+                        and isinstance(a.body[-1], (ast.Return, ast.Raise, ast.Continue, ast.Break)) \
+                        and [ast.dump(x) for x in a.body] == [ast.dump(x) for x in b.body] \
+                        and (ast.unparse(a.test), ast.unparse(b.test)) not in pinned_pairs \
+                        and not any(isinstance(y, (ast.NamedExpr, ast.Yield, ast.Await)) for y in ast.walk(a.test)) and not any(isinstance(y, (ast.NamedExpr, ast.Yield, ast.Await)) for y in ast.walk(b.test)):
+                    va = a.test.values if isinstance(a.test, ast.BoolOp) and isinstance(a.test.op, ast.Or) else [a.test]
+                    vb = b.test.values if isinstance(b.test, ast.BoolOp) and isinstance(b.test.op, ast.Or) else [b.test]
+                    a.test = ast.copy_location(ast.BoolOp(op=ast.Or(), values=list(va) + list(vb)), a.test)
+                    del stmts[i + 1]
+                    ch = True
+                    continue
+                i += 1
             # nested ifs without else: one conjunction (after the bodies were visited: innermost first)
             for st in stmts:
                 while isinstance(st, ast.If) and not st.orelse and len(st.body) == 1 and isinstance(st.body[0], ast.If) and not st.body[0].orelse:
@@ -3687,4 +3725,134 @@ def desugar_module_name_tables(model, module_names: dict) -> list:
                 del body[i]
             ast.fix_missing_locations(mod.tree)
             done.append((mod.short, tname or "<literal>", len(rows)))
+    return done
+
+
+# --------------------------------------------------------------------------- new single-use temporaries
+def _eval_order(node):
+    """sub-expressions of a statement header in (approximate) evaluation order"""
+    if isinstance(node, (ast.Assign, ast.AnnAssign, ast.AugAssign)):
+        if getattr(node, "value", None) is not None:
+            yield from _eval_order(node.value)
+        for t in (node.targets if isinstance(node, ast.Assign) else [node.target]):
+            yield from _eval_order(t)
+        return
+    if isinstance(node, (ast.Lambda, ast.FunctionDef, ast.AsyncFunctionDef, ast.ClassDef)):
+        yield node
+        return
+    yield node
+    for c in ast.iter_child_nodes(node):
+        yield from _eval_order(c)
+
+
+def forward_substitute_new_temps(model, changed: set, pinned_locals: dict) -> list:
+    """`tmp = E` immediately followed by a statement that reads `tmp` exactly once, where `tmp` is a local the pinned function does
+    not have, bound once and read once in the whole function: E is written where `tmp` is read (only when nothing that could run user
+    code is evaluated before that position in the statement, so the order of effects is kept).  The linter-style "introduce a
+    temporary" edit undone; only in functions whose source differs from the pinned tree."""
+    done = []
+    for q in sorted(changed):
+        f = model.functions.get(q)
+        if f is None or f.module.short.startswith("_typeguard") or not isinstance(f.node, (ast.FunctionDef, ast.AsyncFunctionDef)):
+            continue
+        pinned = set(pinned_locals.get(q, ()))
+        for _ in range(8):
+            loads, stores = {}, {}
+            for x in ast.walk(f.node):
+                if isinstance(x, ast.Name):
+                    (loads if isinstance(x.ctx, ast.Load) else stores).setdefault(x.id, []).append(x)
+            nested_names = set()
+            for x in ast.walk(f.node):
+                if x is not f.node and isinstance(x, (ast.FunctionDef, ast.AsyncFunctionDef, ast.Lambda, ast.ListComp, ast.SetComp, ast.DictComp, ast.GeneratorExp, ast.ClassDef)):
+                    nested_names |= {y.id for y in ast.walk(x) if isinstance(y, ast.Name)}
+
+            def header_of(st):
+                if isinstance(st, (ast.Return, ast.Assign, ast.AnnAssign, ast.AugAssign, ast.Expr, ast.Raise, ast.Assert, ast.Delete)):
+                    return [st]
+                if isinstance(st, ast.If):
+                    return [st.test]
+                if isinstance(st, (ast.For, ast.AsyncFor)):
+                    return [st.iter]
+                if isinstance(st, (ast.With, ast.AsyncWith)):
+                    return [st.items[0].context_expr] if st.items else []
+                return []
+
+            def try_pair(a, b):
+                if not (isinstance(a, ast.Assign) and len(a.targets) == 1 and isinstance(a.targets[0], ast.Name)):
+                    return False
+                nm = a.targets[0].id
+                if nm in pinned or nm in f.params or nm in nested_names or nm.startswith("__") or len(stores.get(nm, [])) != 1 or len(loads.get(nm, [])) != 1:
+                    return False
+                if isinstance(a.value, (ast.Yield, ast.YieldFrom, ast.Await, ast.Lambda)) or any(isinstance(y, (ast.Yield, ast.YieldFrom, ast.Await, ast.NamedExpr)) for y in ast.walk(a.value)):
+                    return False
+                use = loads[nm][0]
+                for h in header_of(b):
+                    order = list(_eval_order(h))
+                    if not any(x is use for x in order):
+                        continue
+                    # nothing that can run code before the use
+                    for x in order:
+                        if x is use:
+                            break
+                        if isinstance(x, (ast.Call, ast.Await, ast.Yield, ast.YieldFrom, ast.NamedExpr, ast.Subscript, ast.BinOp, ast.Compare, ast.JoinedStr, ast.IfExp, ast.BoolOp,
+                                          ast.ListComp, ast.SetComp, ast.DictComp, ast.GeneratorExp)):
+                            # the enclosing node of the use itself comes first in a pre-order walk: ignore ancestors of the use
+                            if any(y is use for y in ast.walk(x)):
+                                continue
+                            return False
+                    # a use under a short-circuit / conditional operand other than the first is not always evaluated
+                    parents = {}
+                    for p_ in ast.walk(h):
+                        for c_ in ast.iter_child_nodes(p_):
+                            parents[id(c_)] = p_
+                    n_ = use
+                    while id(n_) in parents:
+                        p_ = parents[id(n_)]
+                        if isinstance(p_, ast.BoolOp) and p_.values[0] is not n_:
+                            return False
+                        if isinstance(p_, ast.IfExp) and p_.test is not n_:
+                            return False
+                        if isinstance(p_, (ast.Lambda, ast.ListComp, ast.SetComp, ast.DictComp, ast.GeneratorExp)):
+                            return False
+                        if isinstance(p_, ast.Compare) and p_.left is not n_ and p_.comparators[0] is not n_:
+                            return False
+                        n_ = p_
+                    # substitute
+                    class _S(ast.NodeTransformer):
+                        def visit_Name(self, n):
+                            return ast.copy_location(a.value, n) if n is use else n
+                    if h is b:
+                        _S().visit(b)
+                    elif isinstance(b, ast.If):
+                        b.test = _S().visit(b.test)
+                    elif isinstance(b, (ast.For, ast.AsyncFor)):
+                        b.iter = _S().visit(b.iter)
+                    else:
+                        b.items[0].context_expr = _S().visit(b.items[0].context_expr)
+                    return True
+                return False
+
+            def rec(stmts):
+                i = 0
+                while i + 1 < len(stmts):
+                    if try_pair(stmts[i], stmts[i + 1]):
+                        done.append((q, stmts[i].targets[0].id))
+                        del stmts[i]
+                        return True
+                    i += 1
+                for st in stmts:
+                    if isinstance(st, (ast.FunctionDef, ast.AsyncFunctionDef, ast.ClassDef)):
+                        continue
+                    for fld in ("body", "orelse", "finalbody"):
+                        sub = getattr(st, fld, None)
+                        if isinstance(sub, list) and sub and isinstance(sub[0], ast.stmt) and rec(sub):
+                            return True
+                    for hd in getattr(st, "handlers", []) or []:
+                        if rec(hd.body):
+                            return True
+                return False
+
+            if not rec(f.node.body):
+                break
+            ast.fix_missing_locations(f.node)
     return done
